@@ -1412,6 +1412,12 @@ func (c *Conn) reportf(format string, args ...interface{}) {
 }
 
 func clearCapTable(msg *capnp.Message) {
+	if msg == nil {
+		// A union member that is present but null (e.g. a Call message
+		// whose call pointer is null) reads as an invalid struct without
+		// a message.
+		return
+	}
 	releaseList(msg.CapTable).release()
 	msg.CapTable = nil
 }
